@@ -4,6 +4,7 @@ import json
 import os
 
 import html_gen
+import html_gen_x
 import html_util as hu
 from common import VERIF
 
@@ -30,8 +31,13 @@ def check_doc(doc, results, positions):
         k = 0
         while k < min(len(exp), len(got)) and tuple(exp[k]) == tuple(got[k]):
             k += 1
-        return (None, 'scan reports %r where the document has %r (event %d; error %r)' % (
-            got[k:k + 2], exp[k:k + 2], k, sc[1]))
+        note = 'scan reports %r where the document has %r (event %d; error %r)' % (got[k:k + 2], exp[k:k + 2], k, sc[1])
+        # prefer a position at which match / balanced_outward / balanced_inward themselves go wrong
+        for j, p in enumerate(positions):
+            bad = hu.c09_problem(doc, p, m[j], o[j], inw[j])
+            if bad:
+                return (p, bad + ' [' + note + ']')
+        return (None, note)
     for j, p in enumerate(positions):
         bad = hu.c09_problem(doc, p, m[j], o[j], inw[j])
         if bad:
@@ -59,17 +65,37 @@ def run(ctx):
         '(events, innermost element, enclosing chain, element at the position + first-child chain, attribute ranges). '
         'A case = one (document, position); non-trivial when at least one element encloses the position; distinct by '
         '(document text, position). Generator domain: see harness/html_gen.py docstring (no backslash in attribute '
-        'values, no `/` in unquoted values, no white space around `=` or inside close tags, quotes balanced in PIs).')
+        'values, no `/` in unquoted values, no white space around `=` or inside close tags, quotes balanced in PIs). '
+        'Added (harness/html_gen_x.py): NAME x FORM -- the raw-text names script/style in every syntactic form, also '
+        'SELF-CLOSED (`<style />`, `<script src=.. />`, with JavaScript / markup / no type; no body, so the markup after '
+        'it counts), and look-alikes of raw-text and void names (`scripts`, `STYLE`, `noscript`, `image`, `BR`) as '
+        'ordinary elements; NAME ALPHABET -- tag and attribute names over the whole documented name alphabet (XML '
+        'NameStartChar / NameChar up to U+1FFF, ranges hard-coded from the XML recommendation): random names mixing all '
+        'blocks (letters, dependent signs, tone marks, digits of other scripts, unassigned code points) in random trees, '
+        'and a complete sweep: every code point of the alphabet in a tag name and two attribute names, first position '
+        '(when a NameStartChar) and later position (sweep documents are queried at 0, 1, the end and one position per '
+        'open tag; their scan events cover the whole text). Names beyond U+1FFF (CJK, astral) are outside the documented '
+        'alphabet and not generated (html_gen_x.NAMES_BEYOND_LIMIT off). All added documents also go through the model.')
     docs = []
     for name, obj in load_corpus('C09'):
         docs.append(('corpus:' + name, html_gen.doc_from_json(obj['doc'] if 'doc' in obj else obj)))
     rng = ctx.rng
     for i in range(n_docs):
         docs.append(('gen:%d' % i, html_gen.gen_document(rng, xml=(i % 3 == 2))))
+    # NAME x FORM and NAME ALPHABET classes (harness/html_gen_x.py)
+    n_x = 48 if quick else 480
+    for i in range(n_x):
+        docs.append(('genx:%d' % i, html_gen_x.gen_document_x(
+            rng, xml=(i % 3 == 2), names=('alphabet' if i % 2 else 'plain'), specials=(0.12 if i % 4 < 2 else 0.03))))
+    sweep = html_gen_x.alphabet_sweep_docs()
+    sweep_pos = {}
+    for i, (d, ps) in enumerate(sweep):
+        sweep_pos[len(docs)] = ps
+        docs.append(('alphabet-sweep:%d' % i, d))
     jobs = []
     pos_of = []
-    for _, d in docs:
-        ps = list(range(0, len(d.text) + 1))
+    for k, (_, d) in enumerate(docs):
+        ps = sweep_pos.get(k) or list(range(0, len(d.text) + 1))
         pos_of.append(ps)
         jobs += doc_jobs(d, ps)
     res = hu.run_impl(jobs)
@@ -87,6 +113,9 @@ def run(ctx):
                 ctx.nontrivial((d.text, p))
                 ctx.cover('enclosing-depth:%d' % min(len(out[j]), 8))
         fail = check_doc(d, r, pos_of[i])
+        if fail and label.startswith('alphabet-sweep:') and n_fail >= 20:
+            n_fail += 1          # enough sweep documents recorded; the smallest replay is chosen among them
+            continue
         if fail:
             n_fail += 1
             p, what = fail
@@ -127,6 +156,9 @@ def call_sequences(ctx, docs):
     rng = ctx.rng
     n = bad_n = 0
     docs = [d for _, d in docs]
+    # every call of this phase, in order: state kept by the library between calls may stem from any earlier call,
+    # so a replay file carries the complete history (a suffix of it need not reproduce the failure)
+    hist = []
     for k in range(0, len(docs) - 1, 2):
         queries = []
         for d in (docs[k], docs[k + 1]):
@@ -134,7 +166,6 @@ def call_sequences(ctx, docs):
             rng.shuffle(ps)
             queries += [(d, p) for p in ps[:40]]
         rng.shuffle(queries)
-        hist = []
         for j, (d, pos) in enumerate(queries):
             opts = hu.OPT_SETS['xml' if d.xml else 'html']
             if j % 3 == 0:
@@ -152,7 +183,7 @@ def call_sequences(ctx, docs):
                 bad_n += 1
                 ctx.property_failure('c09:sequence:%s@%d' % (d.text, pos),
                                      'after other calls (shuffled positions, other documents, half-typed documents) position %d of %r: %s' % (pos, d.text[:120], bad),
-                                     {'component': 'c09-sequence', 'doc': html_gen.doc_to_json(d), 'pos': pos, 'why': bad, 'history': hist[-40:]})
+                                     {'component': 'c09-sequence', 'doc': html_gen.doc_to_json(d), 'pos': pos, 'why': bad, 'history': list(hist)})
                 if bad_n >= 5:
                     break
         if bad_n >= 5:
